@@ -646,12 +646,21 @@ def escape_rule(run, ctx):
             if v is None:
                 continue
             n += 1
-            arm = [ev for ev in p.events if ev.kind == "arm"]
-            if not arm or "filter(|b| is_special((b as char))).count()" not in arm[0].a.replace("&b", "b").replace("(&b)", "b"):
-                if not arm or "is_special(" not in arm[0].a or ".count()" not in arm[0].a:
-                    run.violation(fam, label, "escape/count", H.where(es), "escape must decide by counting the special bytes with is_special, found %s" % (arm[0].a if arm else None))
-                    continue
-            if arm[0].b == "0":
+            # is the number of special bytes zero on this path?  (`match count {0 => ..}` or `if count == 0`)
+            sm = S.Summary(p)
+            zero = None
+            isc = lambda t: "is_special(" in t and ".count()" in t
+            for ev in p.events:
+                if ev.kind == "arm" and isc(ev.a or ""):
+                    zero = (ev.b == "0")
+            for t, tr, _, _ in sm.conds:
+                m = re.match(r"^\(0 (==|!=|<) (.*)\)$", t)
+                if m and isc(m.group(2)):
+                    zero = tr if m.group(1) == "==" else (not tr)
+            if zero is None:
+                run.violation(fam, label, "escape/count", H.where(es), "escape must decide by counting the special bytes with is_special (path %s)" % p.show()[:160])
+                continue
+            if zero:
                 if not H.pat_match("{*c}Borrowed(%s)" % T, v):
                     run.violation(fam, label, "escape/borrow", H.where(es), "with no special character escape must borrow its input, found %s" % v)
             else:
